@@ -494,10 +494,20 @@ def execute(plan):
                     else type(out[1]).__name__),
                     'step %d DeleteInstance(%s): %r' % (i, p, out[1]))
                 break
-            # the copies in the other namespaces go with it
+            # the copies in the namespaces its references name go with it;
+            # a copy in a namespace that no reference names (possible after
+            # a reference was retargeted through that copy) is a separate
+            # instance for the mock and stays (see ASSUMPTIONS)
+            refns = {k[0]}
+            for _n, (t2, _a2, c2) in RM.inst[k]['props'].items():
+                if t2 == 'reference' and c2 is not None:
+                    refns.add(c2[1][0])
             for k2 in [k2 for k2 in RM.inst
                        if k2[1] == k[1] and k2[2] == k[2]]:
-                del RM.inst[k2]
+                if k2[0] in refns:
+                    del RM.inst[k2]
+                else:
+                    M.bump('unreferenced_copy_left')
             M.bump('association_deleted')
         elif kind == 'modify_assoc':
             # retarget the non-key reference (and Weight) of an association
@@ -536,6 +546,17 @@ def execute(plan):
                 cv = (d['type'], False, store.canon_value(newref))
                 for k2 in copies:
                     RM.inst[k2]['props'][d['name'].lower()] = cv
+                # copies live in the namespaces the references name (plus
+                # the namespace the request was addressed to); a copy in a
+                # namespace that is not referenced any more goes away
+                refns = {k[0]}
+                for _n, (t2, _a2, c2) in RM.inst[k]['props'].items():
+                    if t2 == 'reference' and c2 is not None:
+                        refns.add(c2[1][0])
+                for k2 in copies:
+                    if k2[0] not in refns:
+                        del RM.inst[k2]
+                        M.bump('copy_removed_by_retarget')
                 if tgt[0] not in copy_ns:
                     # the association now spans one more namespace
                     full = CIMInstance(rec['cls'])
